@@ -4,7 +4,8 @@
 //!          FULL=<res> <font description> | PART=<res> <font description> | GARB=<res> <font description>`
 //!   sw bits: 1 lib, 2 groups, 4 kerning, 8 features, 16 data, 32 images
 //!   shape: 0 all, 1 none, 2 default only, 3 by name, 4 by directory, 5 always true, 6 always false,
-//!          7 default + by name
+//!          7 default + by name, 8 always-false filter then layers(true), 9 layers(true) then default_layer(false)
+//!   miss: bit set = that optional file / directory is absent (lib, fontinfo, groups, kerning, features, data/, images/, layerinfo)
 //!   REQ = `<all><loadDefault><custom>` custom = `-` | `n<hexname>` | `d<hexdir>` | `t` | `f`
 //!   TREE entries `path:d` / `path:f:<content token>` (tokens: see `Driver/C17.lean`)
 //!   GARB: the same partial load after every file outside the read set was overwritten with garbage
@@ -231,13 +232,17 @@ impl Req {
             4 => r.filter_layers(move |_, p| p == Path::new(&dir)),
             5 => r.filter_layers(|_, _| true),
             6 => r.filter_layers(|_, _| false),
-            _ => r.default_layer(true).filter_layers(move |n, _| n == name),
+            7 => r.default_layer(true).filter_layers(move |n, _| n == name),
+            // builder order matters: `layers(true)` after a filter keeps the (now irrelevant) predicate;
+            // `default_layer(false)` switches `all` off as a side effect
+            8 => r.filter_layers(|_, _| false).layers(true),
+            _ => r.layers(true).default_layer(false),
         };
         r
     }
     fn token(&self) -> String {
         let (all, ld) = match self.shape {
-            0 => (1, 0),
+            0 | 8 => (1, 0),
             2 | 7 => (0, 1),
             _ => (0, 0),
         };
@@ -245,7 +250,7 @@ impl Req {
             3 | 7 => format!("n{}", hexs(&self.name)),
             4 => format!("d{}", hexs(&self.dir)),
             5 => "t".into(),
-            6 => "f".into(),
+            6 | 8 => "f".into(),
             _ => "-".into(),
         };
         format!("{}{}{}", all, ld, custom)
@@ -253,8 +258,8 @@ impl Req {
     /// the harness's own reading of "selected" (used only to decide what to overwrite with garbage)
     fn selects(&self, n: &str, d: &str) -> bool {
         match self.shape {
-            0 | 5 => true,
-            1 | 6 => false,
+            0 | 5 | 8 => true,
+            1 | 6 | 9 => false,
             2 => d == "glyphs",
             3 => n == self.name,
             4 => d == self.dir,
@@ -336,7 +341,24 @@ pub fn observe(toks: &[&str], scratch: &Path) -> String {
     let sw: u32 = field(toks, "sw").parse().unwrap_or(0);
     let shape: u32 = field(toks, "shape").parse().unwrap_or(0);
     let pick: usize = field(toks, "pick").parse().unwrap_or(0);
-    let t = gen_tree(seed, extra);
+    let mut t = gen_tree(seed, extra);
+    // optional files that are simply absent (bit set): lib, fontinfo, groups, kerning, features, data/, images/,
+    // every layerinfo.plist
+    let miss: u32 = field(toks, "miss").parse().unwrap_or(0);
+    for (bit, name) in ["lib.plist", "fontinfo.plist", "groups.plist", "kerning.plist", "features.fea"].iter().enumerate() {
+        if miss & (1 << bit) != 0 {
+            t.files.remove(*name);
+        }
+    }
+    if miss & 32 != 0 {
+        t.files.retain(|k, _| !k.starts_with("data/"));
+    }
+    if miss & 64 != 0 {
+        t.files.retain(|k, _| !k.starts_with("images/"));
+    }
+    if miss & 128 != 0 {
+        t.files.retain(|k, _| !k.ends_with("layerinfo.plist"));
+    }
     let (name, dir) = t.layers[pick % t.layers.len()].clone();
     let req = Req { sw, shape, name, dir };
     let dir_intact: PathBuf = scratch.join("t");
@@ -368,8 +390,10 @@ pub fn gen(tier: &str, seed: u64, out: &mut dyn Write) {
         let extra = ti % 4;
         let pick = rng.below(4);
         for sw in 0..64 {
-            for shape in 0..8 {
-                let recipe = format!("tree={} extra={} sw={} shape={} pick={}", tseed, extra, sw, shape, pick);
+            for shape in 0..10 {
+                // trees 0-3: every optional file present; later trees: some of them absent
+                let miss = [0u32, 0, 0, 0, 0b0011111, 0b11100010, 0b01010101, 0b10101010][ti % 8];
+                let recipe = format!("tree={} extra={} sw={} shape={} pick={} miss={}", tseed, extra, sw, shape, pick, miss);
                 let toks: Vec<&str> = recipe.split(' ').collect();
                 let obs = observe(&toks, &scratch);
                 writeln!(out, "C17 {} => {}", recipe, obs).unwrap();
